@@ -795,6 +795,15 @@ def pregen(ctx):
     except Exception:
         import traceback
         errs.append("unit ops: translator exception: " + traceback.format_exc()[-1500:])
+    # third, independent unit: Model.update_graph of model.py -> coq/gen/Gen_update.v (tools/vlib/py2coq_upd.py; it only READS the
+    # two translators above).  A failure here touches neither Gen_graphflow.v nor Gen_ops.v; it leaves a Gen_update.v stub that
+    # does not compile, so proofs/Gen_update_eq.v and props/C03.v stop checking.
+    try:
+        from vlib import py2coq_upd
+        errs.append(py2coq_upd.pregen())
+    except Exception:
+        import traceback
+        errs.append("unit update: translator exception: " + traceback.format_exc()[-1500:])
     errs = [e for e in errs if e]
     return "\n".join(errs) if errs else None
 
